@@ -449,12 +449,71 @@ def programs_for_shard(item):
             yield src, {'prog': prog, 'desc': desc, 'family': fam}
 
 
+REUSE_FIRSTS = [[], [b''], [b'-- c\n'], [b'\n'], [b'  \n'], [b'x=1\n'], [b'--[[a\nb]]\n'], [b'do end\n']]
+REUSE_PREFIXES = [b'', b'-- t\n', b'\n', b' ', b'\t', b'--[[c]]', b'// s\n\n']
+
+
+def check_reuse(tier, k, n, res):
+    """One Lua object fed twice (Lua.from_lines(A), then update_from_lines(B)): tokens and tree must be those of a
+    fresh object fed A+B at once, for every kind of first feed (nothing, comments only, blank lines, code) and
+    every kind of start of B (code, comment, blank line, blanks)."""
+    lua = lua_mod()
+    from lib import asttools
+    for prog in programs(tier, 'stat', k, n):
+        if isinstance(prog, tuple) or len(prog.toks) > 12:
+            continue
+        body = L.assemble(prog, {})
+        for fi, first in enumerate(REUSE_FIRSTS):
+            for pi, pre in enumerate(REUSE_PREFIXES):
+                second = pre + body
+                res.evaluations += 1
+                case = {'reuse': [list(first), second]}
+                try:
+                    fresh = lua.Lua.from_lines(list(first) + [second], version=8)
+                except Exception:
+                    res.count('fresh_parse_raises')      # the main families decide validity
+                    continue
+                try:
+                    obj = lua.Lua.from_lines(list(first), version=8)
+                    obj.update_from_lines([second])
+                except Exception as e:
+                    res.violation('C08|reuse|raise|%s|first=%d' % (type(e).__name__, fi),
+                                  'Lua.from_lines(%r) then update_from_lines(%r) raised %r; fed at once it parses' % (
+                                      first, second, e), case)
+                    continue
+                res.nontriv((fi, pi, body))
+                t1 = [(type(t).__name__, t._data) for t in fresh.tokens]
+                t2 = [(type(t).__name__, t._data) for t in obj.tokens]
+                if t1 != t2:
+                    res.violation('C08|reuse|tokens|first=%d' % fi,
+                                  'Lua.from_lines(%r) then update_from_lines(%r): token list differs from feeding both at once' % (
+                                      first, second), case)
+                    continue
+                try:
+                    s1, s2 = asttools.chunk(fresh.root), asttools.chunk(obj.root)
+                except Exception as e:
+                    res.violation('C08|reuse|tree-unreadable|%s' % type(e).__name__, 'tree of the re-fed object: %r' % e, case)
+                    continue
+                if s1 != s2 or fresh.root.end_pos != obj.root.end_pos:
+                    res.violation('C08|reuse|tree|first=%d|start=%d' % (fi, pi),
+                                  'Lua.from_lines(%r) then update_from_lines(%r): tree has %d statements and ends at token %d; '
+                                  'fed at once: %d statements, ends at token %d' % (
+                                      first, second, len(s2[1]), obj.root.end_pos, len(s1[1]), fresh.root.end_pos), case)
+                    continue
+                res.outcome(('reuse', fi, pi))
+
+
 def shards(tier, seed):
-    return program_shards(tier, seed)
+    nr = 8 if tier == 'quick' else 16
+    return program_shards(tier, seed) + [('reuse', 'c08', tier, 'stat', k, nr) for k in range(nr)]
 
 
 def run_shard(item):
     res = ShardResult()
+    if item[0] == 'reuse':
+        check_reuse(item[2], item[4], item[5], res)
+        res.sample({'family': 'reuse', 'first': [b'-- c\n'], 'second': b'-- t\nx=1\n'})
+        return res
     _, tag, tier, fam, k, n = item
     seen = set()
     for prog in programs(tier, fam, k, n):
@@ -482,6 +541,10 @@ def run_shard(item):
 def replay(case):
     """Re-parse the recorded source; ground truth is re-derived by finding the program in its family."""
     res = ShardResult()
+    if 'reuse' in case:
+        for k in range(8):
+            check_reuse('quick', k, 8, res)
+        return [(s, v[0]) for s, v in res.violations.items()]
     src = case['src']
     fam = case.get('family', 'stat')
     for tier in ('quick', 'thorough'):
